@@ -35,3 +35,18 @@ fn prefixed_name(input: &str) -> IResult<&str, model::PrefixedName> {
         model::PrefixedName::from,
     )(input)
 }
+
+/// Verification hook: runs one (possibly private) production on `input` and reports the
+/// number of bytes it consumed, or `Err(())` when it fails.  `None` for an unknown name.
+#[cfg(feature = "verif")]
+pub fn verif_production(production: &str, input: &str) -> Option<Result<usize, ()>> {
+    fn run<O, E>(input: &str, r: Result<(&str, O), E>) -> Result<usize, ()> {
+        r.map(|(rest, _)| input.len() - rest.len()).map_err(|_| ())
+    }
+    Some(match production {
+        "ncname" => run(input, ncname(input)),
+        "qname" => run(input, qname(input)),
+        "prefixed_name" => run(input, prefixed_name(input)),
+        _ => return None,
+    })
+}
